@@ -249,6 +249,7 @@ type EnvScalars struct {
 	Any  interface{}
 	Ints []int
 	Strs []string
+	Fls  []float64
 	Anys []interface{}
 	Arr  [3]int
 	MSI  map[string]int
